@@ -314,6 +314,9 @@ def part_b_case(ctx, i, rng):
         open(os.path.join(d, "data", "target.txt"), "w").write(f"level {k}")
     elsewhere = os.path.join(root, "elsewhere")
     os.makedirs(os.path.join(elsewhere, "data"))
+    os.makedirs(os.path.join(elsewhere, "lists"))
+    os.makedirs(os.path.join(root, "data"), exist_ok=True)
+    open(os.path.join(root, "data", "target.txt"), "w").write("decoy one level above the process cwd")
     open(os.path.join(elsewhere, "data", "target.txt"), "w").write("decoy in the process cwd")
     # parsers: level k has a path option, a list of paths, a dataclass sub-file and (if not last) an inner parser for level k+1
     parsers = []
@@ -322,7 +325,7 @@ def part_b_case(ctx, i, rng):
         if k == 0:
             q.add_argument("--cfg", action=ActionConfigFile)
         q.add_argument(f"--f{k}", type=Path_fr)
-        q.add_argument(f"--fs{k}", type=List[Path_fr])
+        q.add_argument(f"--fs{k}", type=List[Path_fr], enable_path=True)
         q.add_argument(f"--o{k}", type=Optional[Path_fr])
         q.add_argument(f"--pt{k}", type=zoo.Point)
         q.add_argument(f"--n{k}", type=int, default=0)
@@ -337,8 +340,16 @@ def part_b_case(ctx, i, rng):
     for k, d in enumerate(dirs):
         doc = {f"n{k}": k + 1, f"f{k}": "data/target.txt"}
         expected[prefix + f"f{k}"] = os.path.join(d, "data", "target.txt")
-        if rng.random() < 0.5:
+        r = rng.random()
+        if r < 0.35:
             doc[f"fs{k}"] = ["data/target.txt", "./data/../data/target.txt"]
+            expected[prefix + f"fs{k}"] = [os.path.join(d, "data", "target.txt")] * 2
+        elif r < 0.7:
+            # the list itself lives in its own file (a YAML list of relative paths) next to this config
+            os.makedirs(os.path.join(d, "lists"), exist_ok=True)
+            with open(os.path.join(d, "lists", "files.yaml"), "w") as f:
+                f.write("- ../data/target.txt\n- ../data/../data/target.txt\n")
+            doc[f"fs{k}"] = "lists/files.yaml"
             expected[prefix + f"fs{k}"] = [os.path.join(d, "data", "target.txt")] * 2
         if rng.random() < 0.4:
             doc[f"o{k}"] = "data/target.txt"
